@@ -102,6 +102,8 @@ def make(kind, kwargs, hidden=None):
         if m == 3:
             return np.longdouble(enc(kwargs)) / np.longdouble(3)
         return np.datetime64(int(enc(kwargs) % 10 ** 18), "ns")
+    if t == "frac":       # a float that needs all its digits (a ratio): 17 significant digits to write it down exactly
+        return float(enc(kwargs)) / 3.0
     if t == "npbool":     # what a comparison of numpy scalars / ndarray.all() returns
         import numpy as np
         return np.bool_(enc(kwargs) & 1)
